@@ -19,7 +19,9 @@ LEVEL = "proof"
 THEOREMS = "Props/C02.v"
 EXTS = ["xtc", "trr", "dcd", "dtr"]
 RULE = ("cases = (format, api in {load(stride,frame), load_frame, iterload(chunk,stride,skip), load([files],stride)}, "
-        "T, stride>=1, chunk>=0, skip in [0,T], frame in [0,T), atom subset in {None + 3 proper subsets}, 1..3 files) on files "
+        "T, stride>=1, chunk>=0, skip in [0,T], frame in [0,T), atom_indices in {None, single first/middle/last atom, "
+        "first+last, contiguous blocks, evenly strided, irregular incl. sets that look evenly spaced from their end points, repeated "
+        "gaps, all atoms - derived per atom count}, 1..3 files) on files "
         "whose configuration rotates from case to case through atom counts {1,3,4,10,13,20} x written with/without unit cell "
         "(lammpstrj, dtr always with cell); "
         "thorough: exhaustive for T<=8, chunk 0..9, stride 1..4, skip 0..T (atom subset and file configuration rotate with the case); "
@@ -50,12 +52,24 @@ NEEDS_CELL = ("lammpstrj", "dtr")          # their writers refuse a trajectory w
 
 
 def ais_for(n):
-    """None + three strictly increasing proper subsets of range(n) (fewer when n is too small)"""
-    if n == 1:
-        return [None, None, None, None]
-    if n == 3:
-        return [None, [0], [1], [0, 2]]
-    return [None, [0], [1, n - 2], [0, 2, n - 1]]
+    """atom_indices choices for a file with n atoms: None plus strictly increasing selections of several shapes
+    (single atom first/middle/last, first+last, contiguous blocks, evenly strided sets, irregular sets - among them
+    sets that look evenly spaced when judged from their first two and last elements -, repeated gaps, all atoms)"""
+    out = [None]
+
+    def add(xs):
+        xs = [int(x) for x in xs]
+        if xs and all(0 <= x < n for x in xs) and all(a < b for a, b in zip(xs, xs[1:])) and xs not in out:
+            out.append(xs)
+    add([0]); add([n - 1]); add([n // 2]); add([0, n - 1])                  # single atoms, first and last only
+    add(range(1, min(n, 4))); add(range(max(0, n - 3), n)); add(range(2, 7))   # contiguous blocks
+    add(range(0, n, 2)); add(range(1, n, 3)); add(range(2, n, 4))            # evenly strided
+    add([0, 2, 3, 6]); add([3, 5, 6, 8, 11]); add([1, 4, 5, 10]); add([2, 4, 7, 8]); add([0, 3, 4, 9])   # look even from the ends
+    add([4, 8, 9, 10, 11, 12, 13, 14, 15, 16]); add([0, 5, 6, 15])           # (same, only valid for 20 atoms)
+    add([0, 1, 4, 5, 8, 9]); add([0, 3, 4, 7]); add([1, 2, 5, 6, 9])         # repeated gaps
+    add([1, n - 2]); add([0, 2, n - 1]); add([0, 1, n - 1]); add([1, 3, 4])  # irregular
+    add(range(n))                                                            # all atoms, in order
+    return out
 
 
 def config(fmt, i):
@@ -70,13 +84,17 @@ def config(fmt, i):
 _rot = itertools.count()
 
 
-def mk(fmt, kind, Ts, chunk=0, stride=1, skip=0, frame=None, ai=0):
-    """ai = index into ais_for(n_atoms); the file configuration rotates with every case that is built"""
+def mk(fmt, kind, Ts, chunk=0, stride=1, skip=0, frame=None, ai=0, n_atoms=None):
+    """ai = index into ais_for(n_atoms) (or an explicit list together with n_atoms); the file configuration rotates
+    with every case that is built"""
     T = Ts[0]
     i = next(_rot)
     n, cell = config(fmt, i // 4)
+    if n_atoms is not None:
+        n = n_atoms
     if isinstance(ai, int):
-        sel = ais_for(n)[ai % 4]
+        choices = ais_for(n)
+        sel = choices[ai % len(choices)]
     else:
         sel = ai
     return {"fmt": fmt, "kind": kind, "Ts": list(Ts), "chunk": chunk, "stride": stride, "skip": skip, "frame": frame,
@@ -92,7 +110,14 @@ def witnesses():
                 mk(fmt, "iterload", [10], 0, 2, 3, ai=2), mk(fmt, "iterload", [10], 5, 2, 0, ai=3),
                 mk(fmt, "load", [10], stride=3), mk(fmt, "load", [10], stride=3, ai=2),
                 mk(fmt, "load", [10], stride=4, frame=4), mk(fmt, "load_frame", [10], frame=4),
-                mk(fmt, "load_frame", [10], frame=9, ai=1), mk(fmt, "load_list", [3, 2, 4], stride=2, ai=3)]
+                mk(fmt, "load_frame", [10], frame=9, ai=1), mk(fmt, "load_list", [3, 2, 4], stride=2, ai=3),
+                # irregular selections that look evenly spaced from their end points, evenly strided, block, all atoms
+                mk(fmt, "load", [4], stride=1, ai=[0, 2, 3, 6], n_atoms=13),
+                mk(fmt, "iterload", [7], 3, 2, 1, ai=[3, 5, 6, 8, 11], n_atoms=20),
+                mk(fmt, "load_frame", [5], frame=3, ai=[1, 4, 5, 10], n_atoms=13),
+                mk(fmt, "iterload", [6], 2, 1, 0, ai=[0, 3, 6, 9], n_atoms=10),
+                mk(fmt, "load", [5], stride=2, ai=[2, 3, 4, 5, 6], n_atoms=10),
+                mk(fmt, "load_list", [2, 3], stride=1, ai=list(range(13)), n_atoms=13)]
     return out
 
 
@@ -106,8 +131,8 @@ def exhaustive(fmts=None, Tmax=8):
                     for k in range(0, T + 1):
                         out.append(mk(fmt, "iterload", [T], c, s, k, ai=next(rot)))
             for s in range(1, 5):
-                for ai in range(4):
-                    out.append(mk(fmt, "load", [T], stride=s, ai=ai))
+                for _j in range(6):
+                    out.append(mk(fmt, "load", [T], stride=s, ai=next(rot)))
             for fr in range(T):
                 for s in (1, 3):
                     out.append(mk(fmt, "load", [T], stride=s, frame=fr, ai=next(rot)))
@@ -125,7 +150,7 @@ def sampled(rng, per_fmt):
     for fmt in FORMATS:
         for _ in range(per_fmt):
             T = rng.choice([1, 2, 3, 4, 5, 6, 7, 8, 8, 9])
-            ai = rng.randrange(4)
+            ai = rng.randrange(1000)
             r = rng.random()
             if r < 0.6:
                 c = rng.choice([0, 1, 1, 2, 3, 3, 4, 5, 6, 7, T, T + 1, 9])
@@ -410,7 +435,7 @@ def correspond(ctx):
         ce = ctx.notes.setdefault("coverage_extra", {})
         ce["exhaustive"] = True
         ce["exhaustive_scope"] = ("per format: iterload over T 1..8 x chunk 0..9 x stride 1..4 x skip 0..T; load over T x stride 1..4 x "
-                                  "4 atom choices; load(frame)/load_frame over T x every frame; load([..]) over all lists of 1..3 files "
+                                  "6 atom selections; load(frame)/load_frame over T x every frame; load([..]) over all lists of 1..3 files "
                                   "with sizes in {1,2,3,5} x stride 1..3. The atom subset and the file configuration (atom count in "
                                   "{1,3,4,10,13,20} x with/without unit cell) are NOT product axes: they rotate from case to case "
                                   "(all 48 combinations occur within any 48 consecutive cases).")
